@@ -15,7 +15,7 @@ import sys
 sys.path.insert(0, os.path.dirname(os.path.dirname(os.path.abspath(__file__))))
 import common
 import exprlib
-from exprlib import parse_out
+from exprlib import parse_out, f2h
 
 STRINGS = [b"", b"a", b"name", b'"', b"\\", b'a"b', b"\\\\", b'\\"', b"\xff", b"\xfe\xff", b"\x00", b"\x00a\x00",
            "héllo".encode(), b"x" * 40, b'"' * 5, b"tab\there", b"nl\nhere", b" "]
@@ -61,6 +61,60 @@ def gen_cases(ck, n):
     return progs
 
 
+def gen_oracle_archives(ck, n):
+    """archives whose shapes contain a serialisable oracle (the harness registers VerifBallClause), plain, remapped
+    (a TransformedOracleClause with dependencies after flattening), as an operand and as a shape root, shared between
+    shapes; the codec model does not cover oracle clauses, so these go through the round-trip oracle only"""
+    rng = ck.rng
+    progs = []
+    for k in range(n):
+        p = exprlib.Prog(f"r{k}")
+        ax = [p.emit("x", "axis"), p.emit("y", "axis"), p.emit("z", "axis")]
+
+        def const(v):
+            return p.emit(f"const {f2h(v)}", "const")
+
+        def moved(t):
+            m = []
+            for a in ax:
+                r = rng.random()
+                if r < 0.4:
+                    m.append(p.emit(f"bin OP_SUB {a} {const(rng.choice([0.5, -0.75, 1.25, 2.0]))}", "tree"))
+                elif r < 0.6:
+                    m.append(p.emit(f"bin OP_MUL {a} {const(rng.choice([2.0, 0.5, -1.0]))}", "tree"))
+                elif r < 0.7:
+                    m.append(ax[rng.randrange(3)])
+                else:
+                    m.append(a)
+            return p.emit(f"remap {t} {m[0]} {m[1]} {m[2]}", "tree")
+        o = p.emit("soracle", "tree")
+        pool = [o]
+        for _ in range(rng.randint(1, 5)):
+            t = rng.choice(pool)
+            r = rng.random()
+            if r < 0.45:
+                pool.append(moved(t))
+            elif r < 0.6:
+                pool.append(p.emit(f"un OP_NEG {t}", "tree"))
+            elif r < 0.8:
+                pool.append(p.emit(f"bin {rng.choice(['OP_MIN', 'OP_MAX', 'OP_ADD'])} {t} {rng.choice(pool)}", "tree"))
+            else:
+                pool.append(p.emit(f"bin OP_SUB {t} {const(rng.choice([0.25, 1.0]))}", "tree"))
+        nshapes = rng.choice([1, 2, 3])
+        spec, args = [], [str(nshapes)]
+        for s2 in range(nshapes):
+            h = pool[-1] if s2 == 0 else rng.choice(pool)
+            name, doc = rng.choice(STRINGS), rng.choice(STRINGS)
+            spec.append((h, name, doc, []))
+            args += [str(h), hexs(name), hexs(doc), "0"]
+        p.spec = spec
+        p.qa = p.ncmd + 1
+        p.emit("archive " + " ".join(args))
+        p.oracle_only = True
+        progs.append(p)
+    return progs
+
+
 def run(replay=None):
     ck = common.Check("C08", level="proof")
     rep = common.regen_translators()
@@ -71,7 +125,7 @@ def run(replay=None):
         ck.violation("build", "harness does not build against /repo working tree", {"log": log_h[-3000:]}, no_input=True)
         ck.finish()
     quick = ck.tier == "quick"
-    progs = gen_cases(ck, 400 if quick else 8000)
+    progs = gen_cases(ck, 400 if quick else 8000) + gen_oracle_archives(ck, 60 if quick else 1500)
     exe_h = os.path.join(common.BUILD, "cxx", "bin", "expr")
     exe_m = os.path.join(common.BUILD, "ocaml", "driver")
     hout, hskip = common.run_cases_sharded(exe_h, [p.text() for p in progs])
@@ -81,6 +135,8 @@ def run(replay=None):
     # the model serialises variables in the order the implementation's std::map (pointer order) did
     mtexts = []
     for p in progs:
+        if getattr(p, "oracle_only", False):
+            continue
         out = H.get((p.cid, p.qa), [])
         vo = [l[3:].split() for l in out if l.startswith("VO")]
         lines = list(p.lines)
@@ -116,6 +172,9 @@ def run(replay=None):
         if errs:
             ck.violation("exception", "serialise / deserialise raised: " + errs[0], {"program": p.text()})
             continue
+        oracle_only = getattr(p, "oracle_only", False)
+        if oracle_only:
+            stats["oracle_archives"] = stats.get("oracle_archives", 0) + 1
         # fragile constant folds: a shadow build of the model (doubles / one-ulp noise / +0 only) folds a
         # shape's constants to something else than the main build (cos(exp(6)): 1000 ulps per ulp of exp)
         msh = [l.split("dump=")[1] for l in mo if l.startswith("S ") and "dump=" in l]
@@ -127,7 +186,9 @@ def run(replay=None):
                         re.sub(r"\bv-?\d+\b", "v0", msh[int(k)]), re.sub(r"\bv-?\d+\b", "v0", dd), ulps=64):
                     fragile = True
         mo = [l for l in mo if not l.startswith("DS ")]
-        if hb and mb and hb[0] == mb[0]:
+        if oracle_only:
+            pass                                   # no codec model for oracle clauses: round-trip oracle only
+        elif hb and mb and hb[0] == mb[0]:
             stats["bytes_exact"] += 1
             stats["total_bytes"] += (len(hb[0]) - 2) // 2
         elif fragile:
@@ -144,7 +205,9 @@ def run(replay=None):
             corr_bad.append((p, "bytes", hb[:1], mb[:1]))
         hs = [l for l in ho if l.startswith("S ") or l.startswith("N ")]
         ms = [l for l in mo if l.startswith("S ") or l.startswith("N ")]
-        if hs == ms:
+        if oracle_only:
+            pass
+        elif hs == ms:
             stats["reload_equal"] += 1
         elif all(exprlib.dumps_equal_tol(a.split("dump=")[1], b.split("dump=")[1]) and a.split("dump=")[0] == b.split("dump=")[0]
                  for a, b in zip(hs[1:], ms[1:])) and len(hs) == len(ms):
